@@ -178,21 +178,6 @@ Theorem html_endtag_faithful :
 Proof. exact html_endtag_faithful_proof. Qed.
 Print Assumptions html_endtag_faithful.
 
-(* C09 — templates, every context (witnesses; the general theorems for attributes, raw text and the other contexts are
-   being re-proved over the model of /repo 886e7b1 in Html/TemplateMore.v.wip): the former findings' inputs now give
-   ONE token that contains the whole region, HasTemplate() = true: <!-- {{x}} -->, <!-- {{ "-->" }} -->a,
-   <!doctype {{">"}}>, </a{{x}}>, <svg>{{"</svg>"}}</svg>, <math>{{x}}</math>. *)
-Theorem html_template_elsewhere_fixed_witnesses :
-  region_inside go_tmpl CommentT [60;33;45;45;32;123;123;120;125;125;32;45;45;62] 5 10 /\
-  region_inside go_tmpl CommentT [60;33;45;45;32;123;123;32;34;45;45;62;34;32;125;125;32;45;45;62;97] 5 16 /\
-  region_inside go_tmpl DoctypeT [60;33;100;111;99;116;121;112;101;32;123;123;34;62;34;125;125;62] 10 17 /\
-  region_inside go_tmpl EndTagT [60;47;97;123;123;120;125;125;62] 3 8 /\
-  region_inside go_tmpl SvgT [60;115;118;103;62;123;123;34;60;47;115;118;103;62;34;125;125;60;47;115;118;103;62] 5 17 /\
-  region_inside go_tmpl MathT [60;109;97;116;104;62;123;123;120;125;125;60;47;109;97;116;104;62] 6 11.
-Proof. exact html_template_elsewhere_fixed. Qed.
-Print Assumptions html_template_elsewhere_fixed_witnesses.
-
-
 (* C09 — templates, attribute names (partial): a region [p,q) that follows a tag name or an attribute after
    whitespace [cursor,a) and name bytes [a,p) at which no opening delimiter starts (name_plain: not whitespace,
    '=', '>', "/>"; a = p: the region is the first thing of the attribute) lies inside ONE Attribute token that
@@ -308,14 +293,17 @@ Print Assumptions html_template_atomic_comment.
        after whitespace and attribute-name bytes; at the start of an attribute value or inside a quoted value; in raw
        text reached over plain bytes, regions and non-matching "</"+letters; in plaintext content; in a comment, CDATA
        section, doctype, bogus comment "<?…" / "<!…" / "</"+non-letter or end tag, after bytes that are neither a
-       delimiter start nor the construct's terminator),
+       delimiter start nor the construct's terminator; in svg / math / xml content at every loop head of shiftXML
+       reached from the end of the start tag's name over steps at which no delimiter starts and over whole regions
+       (TemplateAll.xml_reach over the pure step function xml_step: tag / quote / comment / CDATA / PI state, nested
+       end tags jumped over), provided no NUL byte follows and no error is pending (else the token is an ErrorToken)),
        then the call returns ONE token that starts at or before p, contains the whole region and has HasTemplate() = true;
    (2) if the returned token has HasTemplate() = true, then a region lies inside the bytes the call consumed.
    Positions at which the lexer does not look (so (1) does not apply): the letters it jumps over after '<' or "</" in
    raw text, script "<!--" sections and svg / math content; the bytes of "<!--", "<![CDATA[", "<?" and of the terminators
    "-->", "]]>", "?>"; the blank after "<!doctype"; whitespace, '=' and the closers inside a tag; the first two bytes of
-   "</", "<!", "<?" and the first letter of a tag name.  Not in [looked] although the lexer looks there: positions
-   inside svg / math / xml content (covered by (2), by html_template_elsewhere_fixed_witnesses and by the Go oracle). *)
+   "</", "<!", "<?" and the first letter of a tag name.  (The former witness theorem is gone: its inputs are instances,
+   e.g. TemplateAll.html_template_xml_looked for <svg>{{"</svg>"}}</svg>.) *)
 Theorem html_template_exact :
   forall c d l, cfg_ok c -> tb c <> [] -> html_inv d l ->
     (forall p q, looked c d l p -> is_region c d p q ->
